@@ -149,7 +149,7 @@ def check_scenarios(prop, tier):
                     continue
                 # one configuration per scenario (rotating), both drivers
                 o = sc['outs'][(li + seed()) % len(sc['outs'])]
-                if prop == 'C08' and sc.get('outsAfter1') and li % 3 == 0:
+                if prop in ('C08', 'C05') and sc.get('outsAfter1') and li % 3 == 0:
                     # prior applied state: patch 1 was pushed by an earlier invocation
                     o = sc['outsAfter1'][(li + seed()) % len(sc['outsAfter1'])]
                     o = {'cfg': dict(o['cfg'], after1=True), 'out': o['out']}
